@@ -4,6 +4,7 @@
     > store tags=<a:b:c;…> ev=<series:sec:val,…>     stored series (tag values of tags 1..3) and their events
     > ts step=<S> lod=<L> startx=<i> vs=<i> ve=<i> times=<t0,t1,…> w=<bucket width per point>
     > eval <prefix notation>                           unary node tokens (one operand), bin:<op>:<dflt|on|ign>:<labels> (two), sel:<what|->
+    > xeval <unary node> s:<a>:<b>:<c>:<v0,v1,…> …   one operator on series with possibly infinite points (inf, -inf)
     > win w=<W> step=<S> strict=<0|1> t=<…> v=<…>     the bare window cursor (values 1 = present, _ = missing)
   observations: `n=<k>` then one line `{tags} v0 v1 …` per result series, sorted.
 -/
@@ -138,6 +139,47 @@ def showSeries (s : Series) : String :=
 def render (ss : List Series) : List String :=
   s!"n={ss.length}" :: ((ss.map showSeries).toArray.qsort (· < ·)).toList
 
+def parseEVal? (s : String) : Option EVal :=
+  if s = "_" then some none
+  else if s = "inf" || s = "+inf" then some (some .pinf)
+  else if s = "-inf" then some (some .ninf)
+  else (parseRat? s).map (fun q => some (.fin q))
+
+def showEVal : EVal → String
+  | none => "_"
+  | some .pinf => "inf"
+  | some .ninf => "-inf"
+  | some (.fin q) => toString q
+
+/-- `s:<a>:<b>:<c>:<v0,v1,…>`: a series with tags 1..3 and extended-real points -/
+def parseESeries? (tok : String) : Option ESeries :=
+  match tok.splitOn ":" with
+  | ["s", a, b, c, vs] =>
+    match a.toInt?, b.toInt?, c.toInt?, (parseList vs).mapM parseEVal? with
+    | some a, some b, some c, some vs => some { tags := [(1, a), (2, b), (3, c)], vals := vs }
+    | _, _, _, _ => none
+  | _ => none
+
+def nodeToEOp? : Node → Option (EOp × Bool × List Nat)
+  | .agg .max wo ls => some (.max, wo, ls)
+  | .agg .min wo ls => some (.min, wo, ls)
+  | .agg .sum wo ls => some (.sum, wo, ls)
+  | .agg .avg wo ls => some (.avg, wo, ls)
+  | .agg .count wo ls => some (.count, wo, ls)
+  | .agg .group wo ls => some (.group, wo, ls)
+  | .quantile q wo ls => some (.quantile q, wo, ls)
+  | .ot .max r _ => some (.otMax r, false, [])
+  | .ot .min r _ => some (.otMin r, false, [])
+  | .ot .sum r _ => some (.otSum r, false, [])
+  | .ot .avg r _ => some (.otAvg r, false, [])
+  | .ot .count r _ => some (.otCount r, false, [])
+  | .ot .last r _ => some (.otLast r, false, [])
+  | .qot q r _ => some (.otQuantile q r, false, [])
+  | _ => none
+
+def renderE (ss : List ESeries) : List String :=
+  s!"n={ss.length}" :: ((ss.map (fun s => showTags s.tags ++ " " ++ " ".intercalate (s.vals.map showEVal))).toArray.qsort (· < ·)).toList
+
 def step (st : St) (toks : List String) : St × List String :=
   match toks with
   | ["store", tg, ev] =>
@@ -151,6 +193,10 @@ def step (st : St) (toks : List String) : St × List String :=
     | some s, some l, some sx, some vs, some ve, some tm, some wd =>
       ({ st with ts := { times := tm, startX := sx, viewStart := vs, viewEnd := ve, lodStep := l, step := s, widths := wd } }, [])
     | _, _, _, _, _, _, _ => (st, ["bad-op"])
+  | "xeval" :: node :: series =>
+    match (parseNode? node).bind nodeToEOp?, series.mapM parseESeries? with
+    | some (op, wo, ls), some ss => (st, renderE (eExec st.ts op wo ls ss))
+    | _, _ => (st, ["bad-op"])
   | "eval" :: toks =>
     match parseExpr? (toks.length + 1) toks with
     | some (e, []) =>
